@@ -220,7 +220,9 @@ def _locate(t):
     def goal(p):
         if p.kind != "return":
             return True
-        r = p.value
+        r = L.as_arr(p.value) if isinstance(p.value, (list, tuple)) else p.value      # (a list of indices is as good as an array)
+        if not isinstance(r, L.SArr) or r.size != N:
+            return False
         return z3.And(*[z3.Or(*[z3.And(V.Z(r.flat()[i]) == j, dist(i, j) <= tol, *[dist(i, j) <= dist(i, k) for k in range(D)]) for j in range(D)]) for i in range(N)])
     t.prove_paths("result_is_nearest_design_within_tolerance", paths, goal, timeout_ms=90000)
 
